@@ -715,3 +715,313 @@ def C10(ctx):
             if not shape_ok:
                 ctx.fail("result is not a well-formed (candidates, statistics) pair", line=key)
         ctx.case(key, r is not None and r[1] >= 1, kind, "k=%d" % k)
+
+
+# =============================================================================== C11
+class KwFilter(BF.DefaultBioFilter):
+    """documented interface plus an extra optional keyword."""
+
+    def __init__(self, table):
+        super().__init__(screen_name="kw")
+        self.table, self.asked = table, []
+
+    def valid(self, dna_string, strict=False):
+        self.asked.append(dna_string)
+        return bool(self.table[gen.kmer_idx(dna_string)] == "1")
+
+
+def C11(ctx):
+    rng = ctx.rng
+    for it in range(ctx.n(200, 3000)):
+        k = rng.choice([1, 2, 2, 3, 3, 4] if not ctx.thorough else [1, 2, 3, 4, 5, 6])
+        n = 4 ** k
+        kind = rng.choice(["table", "kw", "local", "empty"])
+        if kind == "local":
+            run, gc, motifs = rand_cfg(rng, k)
+            st, flt = proto.guarded(lambda: mk(k, run, gc, motifs))
+            if st != "ok":
+                continue
+            table = "".join("1" if flt.valid(gen.kmer(i, k)) else "0" for i in range(n))
+        else:
+            p = 0.0 if kind == "empty" else rng.choice([0.02, 0.3, 0.6, 0.9, 1.0])
+            table = "".join("1" if rng.random() < p else "0" for _ in range(n))
+            flt = (KwFilter if kind == "kw" else proto.TableFilter)(table)
+        st, res = proto.guarded(lambda: SW.find_vertices(k, flt))
+        key = "fv %d %s" % (k, table)
+        out = ctx.corr(key)
+        if "1" in table:
+            got = "".join(str(int(x)) for x in res) if st == "ok" else res
+            if st != "ok" or got != table:
+                ctx.fail("vertex mask differs from the filter's verdict on the k-mers", filter=kind, line=key,
+                         observed=str(got)[:200])
+            if kind in ("table", "kw") and flt.asked != [gen.kmer(i, k) for i in range(n)]:
+                ctx.fail("filter not asked exactly the k-mers in index order", filter=kind, k=k)
+        elif not (st == "err" and res == "ValueError"):
+            ctx.fail("no accepted k-mer not reported as ValueError", line=key, observed=str(res))
+        ctx.case(key + kind, 0 < table.count("1") < n, kind, "k=%d" % k)
+        # valid graph
+        mask = [int(c) for c in table] if rng.random() < 0.5 else gen.rand_mask(rng, k)
+        for dtype in (int, bool):
+            key = "cvg %d %s" % (k, "".join(map(str, mask)))
+            out = ctx.corr(key, {"dtype": dtype})
+            if any(mask):
+                exp = "ok " + proto.show_acc(gen.induced(k, mask).rows())
+                if out != exp:
+                    ctx.fail("valid graph is not the induced shift sub-graph", line=key, observed=out[:300])
+            elif out != "err ValueError":
+                ctx.fail("empty mask not reported as ValueError", line=key, observed=out)
+            ctx.case(key + str(dtype), 0 < sum(mask) < n, "valid-graph")
+    out = ctx.corr("cvg 2 None")
+    if out != "err ValueError":
+        ctx.fail("None mask not reported as ValueError", observed=out)
+
+
+# =============================================================================== C12
+def C12(ctx):
+    rng = ctx.rng
+
+    def check(k, run, gc, motifs, s):
+        st, flt = proto.guarded(lambda: mk(k, run, gc, motifs))
+        toks = cfg_tokens(k, run, gc, motifs)
+        if st != "ok":
+            ctx.corr("flt %s %s 0" % (toks, tok(s)), {"gc": gc})
+            return
+        whole = bool(flt.valid(s, only_last=False))
+        out = ctx.corr("flt %s %s 0" % (toks, tok(s)), {"gc": gc})
+        exp = oracle.filter_ref(k, run, motifs, gc, s)
+        if whole != exp:
+            ctx.fail("whole-sequence verdict differs from the documented predicate", config=toks, string=s,
+                     observed=whole, expected=exp)
+        last = bool(flt.valid(s, only_last=True))
+        ctx.corr("flt %s %s 1" % (toks, tok(s)), {"gc": gc})
+        if last != bool(flt.valid(s[-k:], only_last=False)):
+            ctx.fail("last-window verdict differs from the verdict of the final window", config=toks, string=s)
+        decidable = (run is None or run < k) and (motifs is None or all(len(m) <= k for m in motifs))
+        if decidable and len(s) >= k:
+            conj = all(flt.valid(s[i:i + k], only_last=False) for i in range(len(s) - k + 1))
+            if conj != whole:
+                ctx.fail("whole-sequence verdict is not the conjunction of its windows", config=toks, string=s)
+        if all(c in NUC for c in s):
+            if bool(flt.valid(oracle.revcomp(s), only_last=False)) != whole:
+                ctx.fail("reverse complement gets a different verdict", config=toks, string=s)
+        # non-trivial: toggling one rule flips the verdict
+        flips = 0
+        for alt in ((None, gc, motifs), (run, None, motifs), (run, gc, None)):
+            if oracle.filter_ref(k, alt[0], alt[2], alt[1], s) != exp:
+                flips += 1
+        ctx.case("flt %s %s" % (toks, s), flips >= 1, "accept" if whole else "reject",
+                 "short" if len(s) < k else "long", *(["foreign"] if any(c not in NUC for c in s) else []))
+
+    if ctx.thorough:
+        cfgs = [(k,) + rand_cfg(rng, k) for k in (1, 2, 3, 4, 5) for _ in range(12)]
+        strings = list(gen.all_strings(NUC, 6))
+        for s in strings[ctx.part::ctx.nparts]:
+            for (k, run, gc, motifs) in cfgs:
+                if run is not None and run > k:
+                    continue
+                check(k, run, gc, motifs, s)
+    for it in range(ctx.n(3500, 120000)):
+        k = rng.choice([1, 2, 3, 4, 5, 8, 10, 25 if rng.random() < 0.2 else 6])
+        run, gc, motifs = rand_cfg(rng, k, allow_bad=True)
+        n = rng.choice([0, 1, 2, k - 1, k, k + 1, 2 * k, 3 * k])
+        alpha = NUC if rng.random() < 0.93 else "ACGTN"
+        if rng.random() < 0.4:
+            # biased strands: homopolymer stretches and GC-rich parts, so rules actually bite
+            s = "".join(rng.choice(NUC) * rng.choice([1, 1, 2, 3]) for _ in range(max(0, n)))[:max(0, n)]
+        else:
+            s = gen.rand_dna(rng, max(0, n), alpha)
+        check(k, run, gc, motifs, s)
+
+
+# =============================================================================== C13
+def C13(ctx):
+    rng = ctx.rng
+    top = 6 if ctx.thorough else 4
+    for k in range(1, top + 1):
+        n = 4 ** k
+        vs = range(n) if k <= top else []
+        for v in list(vs)[ctx.part::ctx.nparts]:
+            s = gen.kmer(v, k)
+            exp_l = [gen.kmer_idx(s[1:] + c) for c in NUC]
+            exp_f = [gen.kmer_idx(c + s[:-1]) for c in NUC]
+            ol = ctx.corr("latters %d %d" % (k, v))
+            of = ctx.corr("formers %d %d" % (k, v))
+            if ol != proto.show_nats(exp_l):
+                ctx.fail("successor list is not drop-first/append", k=k, v=v, observed=ol)
+            if of != proto.show_nats(exp_f):
+                ctx.fail("predecessor list is not drop-last/prepend", k=k, v=v, observed=of)
+            o = ctx.corr("n2d %d %d" % (v, k))
+            if o != "ok %s | %s" % (s, s):
+                ctx.fail("index is not the base-4 value of its k-mer", k=k, v=v, observed=o)
+            ctx.case("k%d v%d" % (k, v), k >= 2, "k=%d" % k)
+        if ctx.part == 0 and k <= (5 if ctx.thorough else 4):
+            oc = ctx.corr("complete %d" % k)
+            exp = proto.show_acc([[succ(v, j, k) for j in range(4)] for v in range(n)])
+            if oc != exp:
+                ctx.fail("complete accessor does not hold the j-th successor in column j", k=k)
+    for it in range(ctx.n(300, 6000)):
+        k = rng.randrange(5, 13 if ctx.thorough else 10)
+        v = rng.randrange(4 ** k)
+        s = gen.kmer(v, k)
+        ol = ctx.corr("latters %d %d" % (k, v))
+        of = ctx.corr("formers %d %d" % (k, v))
+        if ol != proto.show_nats([gen.kmer_idx(s[1:] + c) for c in NUC]) or \
+                of != proto.show_nats([gen.kmer_idx(c + s[:-1]) for c in NUC]):
+            ctx.fail("successor/predecessor arithmetic wrong", k=k, v=v, observed=ol + " / " + of)
+        u = rng.choice([int(x) for x in of.split(",")])
+        if str(v) not in ctx.corr("latters %d %d" % (k, u)).split(","):
+            ctx.fail("u is a predecessor of v but v is not a successor of u", k=k, u=u, v=v)
+        ctx.case("k%d v%d" % (k, v), True, "sampled")
+
+
+# =============================================================================== C14
+def C14(ctx):
+    rng = ctx.rng
+    for it in range(ctx.n(200, 5000)):
+        k = rng.choice([1, 2, 2, 3] if not ctx.thorough else [2, 3, 3, 4, 5])
+        g = rng.choice([gen.rand_arc_subset, gen.rand_profile_graph])(rng, k)
+        a, rows = g.token(), g.rows()
+        lm_exp = {u: [succ(u, j, k) for j in g.live(u)] for u in g.vertices()}
+        o = ctx.corr("a2l " + a)
+        if o != proto.enc_lmap(lm_exp):
+            ctx.fail("latter map content wrong", acc=a, observed=o[:300])
+        o2 = ctx.corr("l2a %s %d -" % (proto.enc_lmap(lm_exp), k))
+        if o2 != "ok " + proto.show_acc(rows):
+            ctx.fail("accessor -> latter map -> accessor is not the identity", acc=a)
+        ov = ctx.corr("verts " + a)
+        if ov != proto.show_nats(g.vertices()):
+            ctx.fail("vertex listing wrong", acc=a, observed=ov)
+        if k <= 4:
+            om = ctx.corr("a2m " + a)
+            M = [[0] * g.n for _ in range(g.n)]
+            for u in range(g.n):
+                for x in rows[u]:
+                    if x >= 0:
+                        M[u][x] = 1
+            if om != "ok " + proto.enc_matrix(M):
+                ctx.fail("matrix content wrong", acc=a)
+            ob = ctx.corr("m2a " + proto.enc_matrix(M))
+            if ob != "ok " + proto.show_acc(rows):
+                ctx.fail("accessor -> matrix -> accessor is not the identity", acc=a)
+            # one illegal arc
+            for _ in range(2):
+                u, w = rng.randrange(g.n), rng.randrange(g.n)
+                if w not in [succ(u, j, k) for j in range(4)]:
+                    M2 = [r[:] for r in M]
+                    M2[u][w] = 1
+                    oi = ctx.corr("m2a " + proto.enc_matrix(M2))
+                    if oi != "err ValueError":
+                        ctx.fail("matrix with a non-shift arc not rejected with ValueError", u=u, w=w, k=k, observed=oi[:100])
+        v, d = rng.randrange(g.n), rng.randrange(0, 4)
+        ends = [v]
+        for _ in range(d):
+            ends = [succ(u, j, k) for u in ends for j in g.live(u)]
+        la = ctx.corr("leafa %s %d %d" % (a, v, d))
+        ll = ctx.corr("leafl %s %d %d" % (proto.enc_lmap(lm_exp), v, d))
+        if sorted(proto.undash(la).split(",")) != sorted(proto.undash(proto.show_nats(ends)).split(",")) or \
+                sorted(proto.undash(ll).split(",")) != sorted(proto.undash(la).split(",")):
+            ctx.fail("leaf query differs from the end points of the d-step walks", acc=a, v=v, d=d, observed=la + " / " + ll)
+        ctx.case(a, k >= 2 and 0 < g.arcs() < 4 * g.n, "k=%d" % k)
+
+
+# =============================================================================== C15 C16
+def rand_number(rng):
+    c = rng.random()
+    n = rng.choice([1, 1, 2, 3, 5, 10, 30, 80, 300])
+    if c < 0.2:
+        return "9" * n
+    if c < 0.3:
+        return "1" + "0" * (n - 1)
+    if c < 0.35:
+        return "0"
+    if c < 0.45:
+        return "1" + "0" * (n - 1) + rng.choice("0123456789") if n > 1 else "7"
+    s = "".join(rng.choice("0123456789") for _ in range(n)).lstrip("0")
+    return s or "0"
+
+
+def C15(ctx):
+    rng = ctx.rng
+
+    def one(s, d):
+        n = int(s)
+        carries = 0
+        for op, exp in (("add", str(n + d)), ("mul", str(n * d)), ("div", "%d %d" % (n // d, n % d) if d else "0 0"),
+                        ("sub", str(n - d) if n >= d else None)):
+            if exp is None:
+                continue
+            key = "%s %s %d" % (op, s, d)
+            o = ctx.corr(key)
+            if o != exp:
+                ctx.fail("string arithmetic differs from integer arithmetic", line=key, observed=o[:120], expected=exp[:120])
+        carry = len(str(n + d)) > len(s) or (n % 10) + d >= 10 or (n % 10) < d
+        ctx.case("%s %d" % (s, d), carry or len(s) >= 9, "len>=9" if len(s) >= 9 else "short",
+                 "carry/borrow" if carry else "plain", "d=%d" % d)
+
+    if ctx.thorough:
+        for n in range(ctx.part, 10000, ctx.nparts):
+            if n % 3 == ctx.seed % 3:
+                for d in range(10):
+                    one(str(n), d)
+        for L in (1233, 5000):
+            one("9" * L, 9)
+            one("1" + "0" * L, 1)
+    for it in range(ctx.n(4000, 60000)):
+        one(rand_number(rng), rng.randrange(10))
+
+
+def C16(ctx):
+    rng = ctx.rng
+
+    def bits_case(bits):
+        bt = bits_token(bits)
+        val = int(bt.replace("-", "") or "0", 2) if bits else 0
+        o = ctx.corr("b2n " + bt)
+        if o != "%d %d" % (val, val):
+            ctx.fail("bit_to_number wrong or paths disagree", bits=bt, observed=o[:200])
+        o = ctx.corr("n2b %d %d" % (val, len(bits)))
+        if o != "ok %s | %s" % (bt, bt):
+            ctx.fail("bits -> number -> bits is not the identity", bits=bt, observed=o[:200])
+        ctx.case("b " + bt, len(bits) >= 1 and any(bits), "bits", "len>=64" if len(bits) >= 64 else "len<64")
+
+    def dna_case(d):
+        val = gen.kmer_idx(d)
+        o = ctx.corr("d2n " + tok(d))
+        if o != "ok %d | ok %d" % (val, val):
+            ctx.fail("dna_to_number wrong or paths disagree", dna=d, observed=o[:200])
+        o = ctx.corr("n2d %d %d" % (val, len(d)))
+        if o != "ok %s | %s" % (tok(d), tok(d)):
+            ctx.fail("dna -> number -> dna is not the identity", dna=d, observed=o[:200])
+        ctx.case("d " + d, len(d) >= 1 and set(d) != {"A"}, "dna")
+
+    def number_case(n, L, base):
+        if base == 2:
+            exp = bits_token(oracle.bits_be(n, L))
+            o = ctx.corr("n2b %d %d" % (n, L))
+            if o != "ok %s | %s" % (exp, exp):
+                ctx.fail("L-bit rendering wrong", n=n, L=L, observed=o[:200])
+        else:
+            exp = tok(gen.kmer(n, L))
+            o = ctx.corr("n2d %d %d" % (n, L))
+            if o != "ok %s | %s" % (exp, exp):
+                ctx.fail("L-symbol DNA rendering wrong", n=n, L=L, observed=o[:200])
+        ctx.case("n %d %d %d" % (n, L, base), n > 0, "number")
+
+    top = 10 if ctx.thorough else 7
+    for L in range(top + 1):
+        for val in range(ctx.part, 1 << L, ctx.nparts):
+            bits_case(oracle.bits_be(val, L))
+    for d in list(gen.all_strings(NUC, 5 if ctx.thorough else 3))[ctx.part::ctx.nparts]:
+        dna_case(d)
+    for it in range(ctx.n(700, 12000)):
+        L = rng.choice([11, 16, 33, 63, 64, 65, 100, 257, 4096 if ctx.thorough and rng.random() < 0.05 else 128])
+        bits_case(gen.rand_bits(rng, L) if rng.random() < 0.5 else [rng.randrange(2) for _ in range(L)])
+        dl = rng.choice([4, 7, 16, 31, 32, 33, 90])
+        dna_case(gen.rand_dna(rng, dl))
+        W = rng.choice([1, 5, 20, 64, 70])
+        number_case(rng.randrange(2 ** W), W + rng.choice([0, 0, 1, 7]), 2)
+        W = rng.choice([1, 3, 10, 32, 40])
+        number_case(rng.randrange(4 ** W), W + rng.choice([0, 0, 1, 7]), 4)
+    o = ctx.corr("d2n ACGN")
+    if o != "err ValueError | err ValueError":
+        ctx.fail("foreign nucleotide not reported as ValueError", observed=o)
